@@ -9,6 +9,10 @@
 //                 asynchronous processors completed by another thread, inputs emitted by another thread) built through
 //                 the real GraphBuilder, run on the inplace executor;   mode pool : same on ThreadPoolGraphExecutor
 //                 (1-4 workers).  run / reset x 1-3 on the same Graph instance.
+//   mode gated / gatedpool : graph / pool mode where external threads feed a RUNNING graph the supported way: the data's
+//                 producer parks its vertex closure, an injector thread emits the data (before / during / after the
+//                 activation, also of requested targets while Graph::run still binds the others), the main thread completes
+//                 the parked closures afterwards; vertices with up to 7 dependencies; processors may fail with +/- codes
 //   mode samedata : graph mode where half of the conditional dependencies have their condition equal to their target
 //   mode inject : graph mode plus raw inputs (data without producer) emitted by another thread WHILE Graph::run
 //                 activates (an emitter the closure does not know about)
@@ -69,6 +73,19 @@ static OptVal mix(int vid, int k, const std::vector<OptVal>& ins) {
   return o;
 }
 
+// some processors fail on some inputs, with positive and negative codes (contract: non-zero = the run fails)
+static uint64_t mix_h(int vid, int k, const std::vector<OptVal>& ins) {
+  uint64_t h = (uint64_t)vid * 31 + (uint64_t)k * 7 + 1;
+  for (auto& in : ins) h = (h * 1000003ull + (in.has ? in.v + 1 : 0)) % 1000000007ull;
+  return h;
+}
+static int fail_code(int vid, const std::vector<OptVal>& ins) {
+  uint64_t h = mix_h(vid, 1000, ins);
+  if (h % 19 != 0) return 0;
+  int k = 1 + (int)((h / 19) % 5);
+  return ((h / 7) % 2) ? k : -k;
+}
+
 struct DepS {
   int target = 0;
   int cond = -1;
@@ -99,6 +116,7 @@ struct RunCtx {
   std::vector<int> invoked, activated, publishes;
   int inflight = 0;
   bool waited = false;
+  bool failing = false;   // processors may fail (graph modes)
   std::vector<std::thread> helpers;
   std::vector<GraphVertexClosure> stash;   // STASH processors: completed by the main thread
   uint64_t delay_seed = 0;
@@ -149,6 +167,12 @@ static OptVal read_data(GraphData* d, int type) {
 
 static void publish(GraphData* d, int id, const OptVal& v, const char* who) {
   int type = g->spec->type_of(id);
+  if (strncmp(who, "external", 8) == 0 && d->ready()) {
+    // the parked producer was not parked after all: the closure had already finished with an error when it was
+    // invoked, so it was skipped and its output flushed empty before the external emitter came
+    vrt_event("late-external %d", id);
+    return;
+  }
   if (type == 1) {
     auto c = d->emit<std::string>();
     if (!c) {
@@ -237,6 +261,8 @@ class MixProcessor : public GraphProcessor {
     }
     ++g->inflight;
     auto ins = read_inputs();
+    int fc = g->failing ? fail_code(spec->id, ins) : 0;
+    if (fc != 0) vrt_event("fail %d %d", spec->id, fc);
     if (spec->kind == ASYNC) {
       // hand the closure to another thread, which emits later and then completes the closure
       int n = 1 + (int)(g->delay_seed++ % 5);
@@ -244,22 +270,22 @@ class MixProcessor : public GraphProcessor {
       // one slot per vertex (a vertex runs at most once per cycle; if the code under test breaks that, the oracle
       // has already said so and the previous helper is detached).  Thread creation is a scheduling point: the new
       // thread may even finish before the slot is assigned, see join_helpers().
-      std::thread helper([self, ins, n, c = std::move(closure)]() mutable {
+      std::thread helper([self, ins, n, fc, c = std::move(closure)]() mutable {
         yields(n);
-        self->emit_all(ins);
+        if (fc == 0) self->emit_all(ins);
         --g->inflight;
         vrt_event("done %d", self->spec->id);
-        c.done(0);
+        c.done(fc);
       });
       std::thread& slot = g->helpers[spec->id];
       if (slot.joinable()) slot.detach();
       slot = std::move(helper);
       return;
     }
-    emit_all(ins);
+    if (fc == 0) emit_all(ins);
     --g->inflight;
     vrt_event("done %d", spec->id);
-    closure.done(0);
+    closure.done(fc);
   }
   const VertS* spec = nullptr;
 };
@@ -268,12 +294,18 @@ class MixProcessor : public GraphProcessor {
 struct HExec : public GraphExecutor {
   GraphExecutor* inner = nullptr;
   ClosureContext* last = nullptr;
+  // mode gated: a vertex closure of the gate vertex taken the moment the closure exists (what an executor does for a
+  // vertex in flight) and completed by the main thread when the external emitters are done: whatever happens inside
+  // Graph::run (activation failure, failing processors), the closure cannot become idle while external data is in flight
+  GraphVertex* hold_for = nullptr;
+  GraphVertexClosure held;
   Closure create_closure() noexcept override {
     auto c = Closure::create<SchedInterface>(*this);
     last = c.context();
     vrt_name(&last->_waiting_vertex_num, sizeof(last->_waiting_vertex_num), "ctx.wvn");
     vrt_name(&last->_waiting_data_num, sizeof(last->_waiting_data_num), "ctx.wdn");
     vrt_name(&last->_callback, sizeof(last->_callback), "ctx.cb");
+    if (hold_for != nullptr) held = GraphVertexClosure(*last, *hold_for);
     return c;
   }
   int32_t run(GraphVertex* vertex, GraphVertexClosure&& closure) noexcept override { return inner->run(vertex, std::move(closure)); }
@@ -335,6 +367,7 @@ struct Ref {
   std::vector<bool> preset;
   std::set<int> needed_v;
   bool failed = false;
+  bool failing = false;
   std::vector<bool> vdone;
   std::vector<std::vector<OptVal>> vins;
   explicit Ref(const GraphS& s) : spec(&s) {
@@ -385,6 +418,10 @@ struct Ref {
       ins.push_back(in);
     }
     vins[vid] = ins;
+    if (failing && !ess_fail && fail_code(vid, ins) != 0) {
+      failed = true;   // the processor fails: the run fails, nothing downstream is meaningful
+      return;
+    }
     for (size_t k = 0; k < v.emits.size(); ++k) {
       int e = v.emits[k];
       if (state[e] == 1 && preset[e]) continue;
@@ -438,8 +475,15 @@ static void emit_spec(const GraphS& s) {
 
 // same_pct: percentage of conditional dependencies whose condition IS their target (`to(A).on(A)`); 0 in the
 // regular modes (see mode samedata)
-static GraphS gen_graph(Rng& rng, bool allow_async, int same_pct) {
+// gated: a quarter of the vertices are "external" producers (kind STASH, no dependencies, one emit): their processor
+// only parks its vertex closure, the data is emitted by an injector thread (before, during or after activation) and
+// the parked closure is completed by the main thread after the injectors have been joined; one more such vertex, the
+// gate, produces an extra last target — so the closure stays open while external data arrives (the supported way of
+// feeding a running graph from outside, unlike mode inject).  Vertices get up to 6 dependencies, often starting with
+// an external data, so that external data arrives while a long activation loop is running.
+static GraphS gen_graph(Rng& rng, bool allow_async, int same_pct, bool gated = false) {
   GraphS s;
+  std::vector<int> ext_data;
   int ninputs = 1 + (int)rng.below(4);
   int nverts = 3 + (int)rng.below(10);
   s.ndata = ninputs;
@@ -449,6 +493,14 @@ static GraphS gen_graph(Rng& rng, bool allow_async, int same_pct) {
     int ndeps = (int)rng.below(4);
     if (rng.below(10) == 0) ndeps = 4 + (int)rng.below(3);
     if (i == 0 && rng.below(2)) ndeps = 0;
+    if (gated && i > 0 && rng.below(2)) ndeps = 2 + (int)rng.below(5);
+    bool ext = gated && rng.below(100) < 25;
+    if (ext) ndeps = 0;
+    if (gated && !ext && !ext_data.empty() && rng.below(2)) {
+      DepS d;
+      d.target = ext_data[rng.below(ext_data.size())];
+      v.deps.push_back(d);
+    }
     for (int k = 0; k < ndeps; ++k) {
       DepS d;
       // prefer recent data (chains) but allow any earlier data (fan-out of one data to many vertices)
@@ -466,9 +518,21 @@ static GraphS gen_graph(Rng& rng, bool allow_async, int same_pct) {
       v.deps.push_back(d);
     }
     int nemits = 1 + (rng.below(4) == 0 ? 1 + (int)rng.below(2) : 0);
+    if (ext) nemits = 1;
     for (int k = 0; k < nemits; ++k) v.emits.push_back(s.ndata++);
     if (allow_async && rng.below(100) < 20) v.kind = ASYNC;
+    if (ext) {
+      v.kind = STASH;
+      ext_data.push_back(v.emits[0]);
+    }
     s.verts.push_back(v);
+  }
+  if (gated) {
+    VertS gate;
+    gate.id = (int)s.verts.size();
+    gate.kind = STASH;
+    gate.emits.push_back(s.ndata++);
+    s.verts.push_back(gate);
   }
   s.dtype.assign(s.ndata, 0);
   for (int d = 0; d < s.ndata; ++d) s.dtype[d] = rng.below(100) < 60 ? 1 : 0;
@@ -480,10 +544,11 @@ static GraphS gen_graph(Rng& rng, bool allow_async, int same_pct) {
 
 static void run_graph(uint64_t seed, const std::string& mode) {
   Rng rng(seed);
-  bool pool = mode == "pool";
+  bool gated = mode == "gated" || mode == "gatedpool";
+  bool pool = mode == "pool" || mode == "gatedpool";
   bool inject = mode == "inject";
   Built b;
-  b.spec = gen_graph(rng, true, mode == "samedata" ? 50 : 0);
+  b.spec = gen_graph(rng, true, mode == "samedata" ? 50 : 0, gated);
   InplaceGraphExecutor inplace;
   b.exec.inner = &inplace;
   printf("RUN %lu mode=%s\n", (unsigned long)seed, mode.c_str());
@@ -504,23 +569,58 @@ static void run_graph(uint64_t seed, const std::string& mode) {
     rc.publishes.assign(s.ndata, 0);
     rc.delay_seed = rng.next();
     rc.helpers.resize(s.verts.size());
+    rc.failing = true;
     g = &rc;
+    b.exec.hold_for = gated ? &b.graph->vertexes().back() : nullptr;
     name_graph(b);
     std::unique_ptr<ThreadPoolGraphExecutor> tp;
     int workers = 1 + (int)rng.below(4);
     // plan of the cycle
     std::vector<int> targets;
     int nt = 1 + (int)rng.below(3);
+    std::vector<int> ext_d;   // data of the external producers (not the gate)
+    int gate_d = -1;
+    if (gated) {
+      for (auto& v : s.verts)
+        if (v.kind == STASH) ext_d.push_back(v.emits[0]);
+      gate_d = ext_d.back();
+      ext_d.pop_back();
+      // often the first requested target is itself an external data: it is then emitted by another thread while
+      // Graph::run is still binding / activating the other targets
+      if (!ext_d.empty() && rng.below(100) < 60) targets.push_back(ext_d[rng.below(ext_d.size())]);
+      nt += 1;
+    }
     for (int i = 0; i < nt || targets.empty(); ++i) {
       int t = rng.below(4) ? ninputs + (int)rng.below(s.ndata - ninputs) : (int)rng.below(s.ndata);
       if (b.data[t] == nullptr) continue;
       if (std::find(targets.begin(), targets.end(), t) == targets.end()) targets.push_back(t);
     }
+    if (gated) {
+      targets.erase(std::remove(targets.begin(), targets.end(), gate_d), targets.end());
+      targets.push_back(gate_d);
+    }
     // presets: inputs (mostly), some produced data too (their producer then must not run)
     struct Pre { int d; OptVal v; int how; };   // how: 0 main thread, 1 another thread before the run, 2 another thread during the run
     std::vector<Pre> pres;
+    // external data: how 0 = nobody emits it (flushed empty when the parked closure is completed), 1 = emitted before
+    // the run, 2 = emitted by an injector thread concurrently with Graph::run
+    std::vector<Pre> exts;
+    for (int d : ext_d) {
+      Pre p;
+      p.d = d;
+      uint64_t k = rng.below(10);
+      if (k >= 2) {
+        p.v.has = true;
+        p.v.v = k < 4 ? 0 : 1 + rng.below(50);
+      }
+      uint64_t h = rng.below(100);
+      p.how = h < 12 ? 0 : (h < 35 ? 1 : 2);
+      if (p.how == 0) p.v = OptVal();
+      exts.push_back(p);
+    }
     for (int d = 0; d < s.ndata; ++d) {
       if (b.data[d] == nullptr) continue;
+      if (d == gate_d || std::find(ext_d.begin(), ext_d.end(), d) != ext_d.end()) continue;
       bool is_input = d < ninputs;
       uint64_t r = rng.below(100);
       if (is_input ? r < 92 : r < 6) {
@@ -537,13 +637,18 @@ static void run_graph(uint64_t seed, const std::string& mode) {
       }
     }
     Ref ref(s);
+    ref.failing = true;
     for (auto& p : pres) ref.set(p.d, p.v);
+    for (auto& p : exts) ref.set(p.d, p.v);
+    if (gate_d >= 0) ref.set(gate_d, OptVal());
     for (int t : targets) ref.eval(t);
 
     vrt_begin(seed * 8 + cyc);
     vrt_event("cycle %d exec=%s workers=%d", cyc, pool ? "pool" : "inplace", pool ? workers : 0);
     emit_spec(s);
     for (auto& p : pres) vrt_event("env %d %s", p.d, show(p.v).c_str());
+    for (auto& p : exts) vrt_event("env %d %s", p.d, show(p.v).c_str());
+    if (gate_d >= 0) vrt_event("env %d -", gate_d);
     {
       std::string t = "targets";
       for (int x : targets) t += " " + std::to_string(x);
@@ -562,6 +667,17 @@ static void run_graph(uint64_t seed, const std::string& mode) {
         if (p.how == 1) ts.emplace_back([&b, p] { publish(b.data[p.d], p.d, p.v, "preset-thread"); });
       for (auto& t : ts) t.join();
     }
+    for (auto& p : exts)
+      if (p.how == 1) publish(b.data[p.d], p.d, p.v, "external-before");
+    std::vector<std::thread> ext_threads;
+    for (auto& p : exts)
+      if (p.how == 2) {
+        int n = (int)rng.below(24);
+        ext_threads.emplace_back([&b, p, n] {
+          yields(n);
+          publish(b.data[p.d], p.d, p.v, "external");
+        });
+      }
     std::vector<std::thread> injectors;
     bool racing = false;
     for (auto& p : pres)
@@ -583,6 +699,22 @@ static void run_graph(uint64_t seed, const std::string& mode) {
     {
       Closure closure = b.graph->run(tv.data(), tv.size());
       ClosureContext* ctx = b.exec.last;
+      if (gated) {
+        // the external emitters are done; now the harness's own vertex closure and the parked ones are completed,
+        // which flushes what nobody emitted; completing one may start vertices (on pool workers too) that park
+        // further closures: go on until the closure's vertex count is 0
+        for (auto& t : ext_threads) t.join();
+        b.exec.held.done(0);
+        for (;;) {
+          while (!rc.stash.empty()) {
+            GraphVertexClosure c = std::move(rc.stash.back());
+            rc.stash.pop_back();
+            c.done(0);
+          }
+          if (ctx->_waiting_vertex_num.load(std::memory_order_acquire) == 0) break;
+          sched_yield();
+        }
+      }
       int code = closure.get();
       vrt_event("result %d", code);
       if (!closure.finished()) vrt_event("ORACLE not-finished get() returned but finished() is false");
@@ -624,7 +756,7 @@ static void run_graph(uint64_t seed, const std::string& mode) {
                       v.has && v.v == STALE ? "<recycled cleared instance>" : show(v).c_str(), show(ref.val[d]).c_str());
         }
         for (auto& v : s.verts)
-          if ((rc.invoked[v.id] > 0 || rc.activated[v.id] > 0) && !ref.needed_v.count(v.id))
+          if (v.kind != STASH && (rc.invoked[v.id] > 0 || rc.activated[v.id] > 0) && !ref.needed_v.count(v.id))
             vrt_event("ORACLE unneeded-run v%d %s but the targets do not need it", v.id, rc.invoked[v.id] > 0 ? "ran" : "was activated");
       }
       // published once: successful seal CAS per data in the trace of this cycle
@@ -820,7 +952,7 @@ int main(int argc, char** argv) {
   for (int i = 0; i < nruns; ++i) {
     uint64_t seed = seed0 + i;
     if (mode == "dep") run_dep(seed);
-    else if (mode == "graph" || mode == "pool" || mode == "inject" || mode == "samedata") run_graph(seed, mode);
+    else if (mode == "graph" || mode == "pool" || mode == "inject" || mode == "samedata" || mode == "gated" || mode == "gatedpool") run_graph(seed, mode);
     else return 2;
   }
   return 0;
